@@ -226,7 +226,15 @@ class Run:
         if step.get("reuse_class") and self.mod is not None:
             self.objs = render.provider_objects(spec, self.mod)
         elif not reuse:
-            self.mod, self.source = render.load(spec, rec, source=step.get("source"))
+            try:
+                self.source = step.get("source") or render.render(spec)
+                self.mod, self.source = render.load(spec, rec, source=self.source)
+            except Exception as err:  # noqa: BLE001  the class statement itself was rejected
+                rec.emit("step", op="construct", phase="begin", val=dict(rec.val), stored=None, start=None, reuse=False)
+                rec.emit("step", op="construct", phase="end", exc=type(err).__name__,
+                         exc_msg="class definition: " + str(err)[:250])
+                self.sm = None
+                return
             self.objs = render.provider_objects(spec, self.mod)
         rec.write_values = {
             st["id"]: (eval(st["value"]["expr"], self.mod.__dict__) if st.get("value") else st["id"])  # noqa: S307
